@@ -67,10 +67,11 @@ B2Steps(steps, n, abs, smart) ==
               ELSE AxisOf(s, smart, B2Steps(steps, n - 1, abs, s.ax \in {"descendant", "descendant-or-self"}))
          ELSE \* under a filter the step's input is built without '//' folding and without SmartDesc
               LET in == B2Steps(steps, n - 1, abs, FALSE)
-                  ax == AxisOf(s, smart, in)
+                  hs == smart /\ "smart-through-filter" \in Deviations   \* the flag stops at a predicate (F-C02-6)
+                  ax == AxisOf(s, hs, in)
               IN IF Len(s.preds) = 1 /\ Positional(s.preds[1]) /\ in.t # "ctx"
                  THEN \* merge rewrite: the step and its predicate are evaluated once per input node
-                      QMerge(in, QFilter(AxisOf(s, smart, QCtx), B2Expr(s.preds[1], smart)))
+                      QMerge(in, QFilter(AxisOf(s, hs, QCtx), B2Expr(s.preds[1], smart)))
                  ELSE B2Chain(ax, s.preds, smart)
 
 B2Expr(e, smart) ==
@@ -180,12 +181,17 @@ Ev2(q, st, g, x) ==
       [] q.t \in AxisKinds ->
            LET i == Ev2(q.in, st.in, g, x)
                s1 == [st EXCEPT !.in = i.st]
-           IN V2(IsQ, CASE q.t \in {"child", "attr", "desc", "foll", "prec"} -> [s1 EXCEPT !.active = FALSE]
-                        [] q.t = "anc" -> [s1 EXCEPT !.active = FALSE, !.table = {}]
-                        [] q.t = "dod" -> [s1 EXCEPT !.level = 0]
+           IN \* each Deviations entry re-introduces a reset the pinned tree lacked (F-C02-1..5)
+              V2(IsQ, CASE q.t \in {"child", "attr", "desc"} -> [s1 EXCEPT !.active = FALSE]
+                        [] q.t \in {"foll", "prec"} -> IF "foll-prec-not-reset" \in Deviations THEN s1 ELSE [s1 EXCEPT !.active = FALSE]
+                        [] q.t = "anc" -> IF "anc-table-not-reset" \in Deviations THEN [s1 EXCEPT !.active = FALSE]
+                                          ELSE [s1 EXCEPT !.active = FALSE, !.table = {}]
+                        [] q.t = "dod" -> IF "dod-level-not-reset" \in Deviations THEN s1 ELSE [s1 EXCEPT !.level = 0]
                         [] OTHER -> s1, i.ops)
       [] q.t = "filter" -> LET i == Ev2(q.in, st.in, g, x) IN V2(IsQ, [st EXCEPT !.in = i.st], i.ops)
-      [] q.t = "merge"  -> LET i == Ev2(q.in, st.in, g, x) IN V2(IsQ, [st EXCEPT !.in = i.st, !.active = FALSE], i.ops)
+      [] q.t = "merge"  -> LET i == Ev2(q.in, st.in, g, x)
+                           IN V2(IsQ, IF "merge-not-reset" \in Deviations THEN [st EXCEPT !.in = i.st]
+                                      ELSE [st EXCEPT !.in = i.st, !.active = FALSE], i.ops)
       [] q.t = "group"  -> LET i == Ev2(q.in, st.in, g, x) IN V2(i.v, [st EXCEPT !.in = i.st], i.ops)
       [] q.t = "const"  -> V2(q.v, st, x.ops)
       [] q.t = "not"    -> \* functionArgs clones the argument: a fresh state for every call
